@@ -1,10 +1,12 @@
-"""C15 At most max_idle_per_host idle connections per origin (E2: inductive step on the only insertion site)"""
+"""C15 At most max_idle_per_host idle connections per origin (E2: inductive step on the insertion site + the limit as an invariant of the pool scheduler)"""
 import mirrun
 from kanirun import H
 
 FACADE = True
-FUNCS = ["client::pool::PoolInner::push", "<WhenReady as Drop>::drop", "client::pool::idle::IdleConnections::{push,len}"]
-BOUNDS = "pre-states with len <= max for max_idle_per_host in {0,1,2,8}, 0..2 waiters, shareable or not; one push / one release: post-state len <= max (an inductive step: pop never adds)"
+FUNCS = ["client::pool::PoolInner::push", "<WhenReady as Drop>::drop", "client::pool::idle::IdleConnections::{push,len}",
+         "client::pool::Pool::checkout", "<Checkout as Future>::poll", "<Checkout as PinnedDrop>::drop", "<Pooled as Drop>::drop", "<WhenReady as Future>::poll", "client::pool::PoolInner::pop"]
+BOUNDS = ("pre-states with len <= max for max_idle_per_host in {0,1,2,8}, 0..2 waiters, shareable or not; one push / one release: post-state len <= max (an inductive step: pop never adds); and, against a second insertion site anywhere in the pool: "
+          "the pool scheduler with max_idle_per_host in {0,1,2}, idle list full and one request in flight, every schedule of 4 (quick) / 5 (thorough) actions, the limit checked after every action")
 OUTSIDE = "that dropping the surplus connection closes the socket (Drop of hyper's SendRequest)"
 ASSUMPTIONS = ["HashMap/HashSet/VecDeque/Vec, tokio oneshot, parking_lot Mutex, Arc/Weak and Instant are replaced by contract-level models; the mock connection reports symbolic openness and scripted readiness",
                "a connection whose sender is still busy does not report open (HttpConnection::is_open is SendRequest::is_ready)", "single-threaded: every step runs with the pool mutex available; re-locking a held mutex is reported as a deadlock"]
